@@ -12,6 +12,9 @@ ENTRIES = [
     dict(name="switch condition inverted", rule="R5", file=C, old="    if w > e:\n        interval_360 = False", new="    if w < e:\n        interval_360 = False"),
     dict(name="longitudes transformed under the opposite flag", rule="R3", file=C, old="        if interval_360:\n            longitude = longitude % 360", new="        if not interval_360:\n            longitude = longitude % 360"),
     dict(name="flag not cleared on the switch", rule="R3", file=C, old="        interval_360 = False\n", new=""),
+    dict(name="longitudes wrapped with np.where(l < 0, l + 360, l): 360 stays 360", rule="R3", file=C, old="            longitude = longitude % 360", new="            longitude = np.where(longitude < 0, longitude + 360, longitude)"),
+    dict(name="region check tests only W < -180 or E > 360", rule="R1", file=C, old="    if np.any(np.array([w, e]) > 360) or np.any(np.array([w, e]) < -180):", new="    if w < -180 or e > 360:"),
+    dict(name="neutral: region longitude range written as four scalar tests", expect="DISCHARGED", file=C, old="    if np.any(np.array([w, e]) > 360) or np.any(np.array([w, e]) < -180):", new="    if w > 360 or e > 360 or w < -180 or (e < -180):"),
     dict(name="longitudes shifted by 180 without unshifting", rule="R4", file=C, old="            longitude = (longitude + 180) % 360 - 180", new="            longitude = (longitude + 180) % 360"),
     dict(name="latitude bound overwritten (region[2])", rule="R2", file=C, old="    region[:2] = (w, e)", new="    region[:2] = (w, e)\n    region[2] = s % 360"),
     dict(name="caller's region written", rule="R2", file=C, old="    region = np.array(region)\n    region[:2] = (w, e)", new="    region = np.asarray(region)\n    region[:2] = (w, e)"),
